@@ -127,6 +127,87 @@ def check_dense(prog, xdata, seed, K=2, tol=1e-8):
     return True, w, None
 
 
+def check_multi(prog, xdata, seed, tol=1e-8):
+    """Several independents and several dependents: every prelude register the program reads is an independent of its
+    own (plus one independent the program never touches, which is also returned as a dependent), and every
+    intermediate result that is a real Taylor polynomial not sharing memory with another dependent is a dependent.
+    Identity: sum_r <xbar_r, v_r>_d = sum_k <ybar_k, F_k'(x) v>_d.  Returns (ok, worst, detail)."""
+    D, P = xdata.shape[:2]
+    used = sorted(set(r for ins in prog for r in ins[1] if r in PR.PRELUDE))
+    spare = [r for r in ('V1', 'S1', 'M1', 'V0') if r not in used][0]
+    names = used + [spare]
+    X = UTPM(np.array(xdata, copy=True))
+    base = dict((r, np.array(PR.PRELUDE[r](X).data, copy=True)) for r in names)
+    v = dict((r, dense(base[r].shape, seed, 31 + k)) for k, r in enumerate(names))
+    try:
+        big = PR.Split(dict((r, UTPM(np.concatenate([base[r], v[r]]))) for r in names))
+        low = PR.Split(dict((r, UTPM(np.concatenate([base[r], np.zeros_like(v[r])]))) for r in names))
+        _, rb = PR.run(prog, big)
+        _, r0 = PR.run(prog, low)
+    except Exception as e:
+        raise Outcome('forward-fails', last_line(e))
+    try:
+        cg = CGraph()
+        F = dict((r, Function(UTPM(base[r].copy()))) for r in names)
+        y, regs = PR.run(prog, PR.Split(F))
+        cg.trace_off()
+    except Exception as e:
+        Function.cgraph = None
+        raise Outcome('untraceable', last_line(e))
+    if not isinstance(y, Function) or not isinstance(y.x, UTPM):
+        raise Outcome('nonutpm-out', type(getattr(y, 'x', y)).__name__)
+    deps, keys, skipped, shared = [], [], 0, 0
+    for k in range(len(prog) - 1, -1, -1):          # the final result first
+        f = regs['r%d' % k]
+        if not isinstance(f, Function) or not isinstance(f.x, UTPM) or np.iscomplexobj(f.x.data):
+            if k == len(prog) - 1:
+                raise Outcome('complex-out')
+            continue
+        if any(f is g for g in deps):
+            skipped += 1           # the same node (a buffer returned again after an in-place write): listed once
+            continue
+        if any(np.shares_memory(f.x.data, g.x.data) for g in deps) or any(np.shares_memory(f.x.data, F[r].x.data) for r in names):
+            shared += 1            # a dependent that is a view of another dependent / of an independent: kept
+        if not isinstance(rb['r%d' % k], UTPM):
+            continue
+        deps.append(f)
+        keys.append('r%d' % k)
+    deps.append(F[spare])
+    keys.append(spare)
+    cg.independentFunctionList = [F[r] for r in names]
+    cg.dependentFunctionList = list(deps)
+    ybars = [UTPM(dense(f.x.data.shape, seed, 71 + k)) for k, f in enumerate(deps)]
+    ycopies = [yb.data.copy() for yb in ybars]
+    try:
+        cg.pullback(ybars)
+    except Exception as e:
+        raise Outcome(classify_pullback_exception(e), last_line(e))
+    lhs = np.zeros((D, P))
+    rhs = np.zeros((D, P))
+    maj = np.zeros((D, P))
+    for r in names:
+        xb = F[r].xbar
+        if not isinstance(xb, UTPM) or xb.data.shape != base[r].shape:
+            raise Outcome('crash', 'xbar of independent %s is %s %s' % (r, type(xb).__name__, getattr(getattr(xb, 'data', None), 'shape', None)))
+        a, m = pairing(xb.data, v[r], D, P)
+        lhs += a
+        maj += m
+    for key, yb in zip(keys, ycopies):
+        Jv = v[spare] if key == spare else (rb[key].data[D:] - r0[key].data[D:])
+        a, m = pairing(yb, np.real(Jv), D, P)
+        rhs += a
+        maj += m
+    err = np.abs(lhs - rhs) / (1.0 + maj)
+    info = {'independents': names, 'dependents': keys, 'dependents_sharing_memory': shared}
+    if not np.all(np.isfinite(err)):
+        return False, float('inf'), dict(info, reason='non-finite adjoint')
+    w = float(err.max())
+    if w > tol:
+        d, p = np.unravel_index(np.argmax(err), err.shape)
+        return False, w, dict(info, order=int(d), direction=int(p), lhs=float(lhs[d, p]), rhs=float(rhs[d, p]))
+    return True, w, None
+
+
 def check_basis(prog, xdata, tol=1e-8):
     """Full Taylor-Jacobian operator: every basis seed e_i t^a against every basis direction e_j t^b
     (P must be 1 in xdata).  Compares xbar_(i,a)[d-b, j] with (J e_j t^b)[d-a, i] for all d."""
